@@ -1879,6 +1879,17 @@ class SolveUnc(_BaseODE):
                     a_rb = la.lu_solve(self.imrb, force[rb], check_finite=False)
             else:
                 a_rb = force[rb]
+            if unc and self.systype is float:
+                b_rb = self.b[self._rb]
+                if b_rb.any():
+                    # damped rigid-body modes: (-w^2 m + i w b) d = F,
+                    # so a = -w^2 d = F / (m - i b / w)  (w != 0)
+                    pvnz = freqw != 0
+                    m_rb = 1.0 if self.m is None else self.m[self._rb][:, None]
+                    a_rb = a_rb.astype(complex)
+                    a_rb[:, pvnz] = force[rb][:, pvnz] / (
+                        m_rb - 1j * b_rb[:, None] / freqw[pvnz]
+                    )
             if "d" in incrb or "v" in incrb:
                 pvnz = freqw != 0
                 if isinstance(rb, slice):
